@@ -107,6 +107,36 @@ pub fn c02q_vec_zst_5() {
 	assert!(Vec::<PhantomData<u64>>::decode(&mut inp).map(|w| w.len()) == Ok(3));
 }
 
+/// element types with an EMPTY encoding but a non-zero size (all fields skipped): a sequence of them
+/// is just its count; must round-trip whatever follows (or nothing follows) in the input
+#[cfg(feature = "ext")]
+pub mod empty_encoding {
+	use super::*;
+	#[derive(Encode, Decode, Default, PartialEq)]
+	pub struct AllSkipped { #[codec(skip)] pub a: u64, #[codec(skip)] pub b: u8 }
+	#[derive(Encode, Decode, PartialEq)]
+	pub struct UnitLike;
+	#[kani::proof]
+	#[kani::unwind(8)]
+	pub fn c02q_vec_of_empty_encoding_elems() {
+		let v: Vec<AllSkipped> = alloc::vec![AllSkipped { a: kani::any(), b: kani::any() }, AllSkipped { a: kani::any(), b: 3 }, AllSkipped::default()];
+		let mut b = Buf::<4>::new();
+		v.encode_to(&mut b);
+		assert!(b.n == 1 && b.d[0] == 12, "a sequence of empty-encoding elements is just its count");
+		// nothing follows
+		let r = Vec::<AllSkipped>::decode(&mut Pre::count(3, &b.d[1..1]));
+		match &r { Ok(w) => { assert!(w.len() == 3 && w[0].a == 0 && w[0].b == 0, "skipped fields must come back as Default"); }, Err(_) => { assert!(false, "round trip of a sequence of empty-encoding elements failed (no trailing bytes)"); } }
+		// one byte follows and must be left unread
+		let tail: [u8; 1] = kani::any();
+		let mut inp = Pre::count(3, &tail[..]);
+		let r2 = Vec::<AllSkipped>::decode(&mut inp);
+		assert!(r2.is_ok() && inp.rest.len() == 1, "round trip of a sequence of empty-encoding elements failed / consumed the suffix");
+		let r3 = alloc::collections::VecDeque::<UnitLike>::decode(&mut Pre::count(2, &b.d[1..1]));
+		assert!(r3.map(|d| d.len()) == Ok(2));
+		core::mem::forget((v, r, r2));
+	}
+}
+
 /// negative twin: claiming the suffix is consumed must FAIL
 #[kani::proof]
 #[kani::unwind(6)]
